@@ -50,3 +50,70 @@ func H_C07_parallel() {
 	vfRaceCheck("C07.operations-on-different-streams-share-no-unsynchronised-state")
 	vfCover("C07.parallel.end")
 }
+
+// C15 (two callers at once): SessionManager.GetStream and PutBack are meant to be called from many
+// goroutines. Two callers each perform one pool operation (get a stream - fresh or pooled -, put
+// their stream back, put back and get again) on the real code, one after the other, under the
+// conflicting-access check: no pointer-like location or map is touched by both, written by one,
+// without a common lock or atomic access.
+func H_C15_parallel() {
+	w := smSetup()
+	pool := newStreamPool(uint32(vfShape("poolcap", 1, 2)))
+	pool.session.Store(w.A)
+	sm := &SessionManager{pools: []*streamPool{pool}, config: &SessionManagerConfig{Config: &Config{}}}
+	// before: `pooled` idle streams in the pool, each caller may hold one
+	var held [2]*Stream
+	pooled := vfShape("pooled", 0, 2)
+	var tmp [2]*Stream
+	for i := 0; i < pooled; i++ {
+		s, err := sm.GetStream()
+		vfAssert(err == nil && s != nil, "C15.get")
+		tmp[i] = s
+	}
+	for k := 0; k < 2; k++ {
+		if vfShape("holds", 0, 1) == 1 {
+			s, err := sm.GetStream()
+			vfAssert(err == nil && s != nil, "C15.get")
+			held[k] = s
+		}
+	}
+	for i := 0; i < pooled; i++ {
+		sm.PutBack(tmp[i])
+	}
+	do := func(k, op int) {
+		switch op {
+		case 0:
+			if held[k] != nil {
+				vfPrune()
+			}
+			s, err := sm.GetStream()
+			vfAssert(err == nil && s != nil, "C15.get")
+			held[k] = s
+		case 1:
+			if held[k] == nil {
+				vfPrune()
+			}
+			sm.PutBack(held[k])
+			held[k] = nil
+		default:
+			if held[k] == nil {
+				vfPrune()
+			}
+			sm.PutBack(held[k])
+			s, err := sm.GetStream()
+			vfAssert(err == nil && s != nil, "C15.get")
+			held[k] = s
+		}
+	}
+	op0 := vfShape("op0", 0, 2)
+	op1 := vfShape("op1", 0, 2)
+	vfRaceBegin(1)
+	do(0, op0)
+	vfRaceEnd()
+	vfRaceBegin(2)
+	do(1, op1)
+	vfRaceEnd()
+	vfAssert(held[0] == nil || held[0] != held[1], "C15.not-handed-to-two-callers")
+	vfRaceCheck("C15.pool-operations-of-two-callers-share-no-unsynchronised-state")
+	vfCover("C15.parallel.end")
+}
